@@ -125,6 +125,15 @@ def _edges(desc):
         outs["full_shape"] = pt.zeros((m,), np.float64) + 1
         outs["stack_sym"] = pt.stack([p, p * 2])       # derived shape (2, m, 4)
         outs["concat_sym"] = pt.concatenate([p, p], axis=1)
+        # Reshape whose newshape holds array-valued components: m itself, and
+        # two equal but distinct derived expressions (shape of a slice)
+        outs["expand_sym"] = pt.expand_dims(p, 0) * 2
+        if not desc.get("dup"):
+            # (with deliberate duplicates nodes are identified by equality,
+            # and the slice's freshly computed shape would be taken for the
+            # equal expressions stored in newshape)
+            y3 = pt.make_placeholder("y3", (m, m, 2), np.float64)
+            outs["expand_sq"] = pt.expand_dims(y3[:, :, 0], 0)
     if "index" in kinds:
         outs["index"] = xf[s] + xf[s[::-1]]
     if "slice" in kinds:
@@ -185,5 +194,6 @@ def env(desc):
             "n": 3, "i0": np.array([1, 6, 3, 8], dtype=np.int32),
             "xf": np.array([0.5, 1.5, -2.0, 4.0]),
             "p": np.arange(16.0).reshape(4, 4), "q": np.arange(4.0),
+            "y3": np.arange(32.0).reshape(4, 4, 2),
             "ev": np.array([1.0, 2.0, 3.0, 4.0]),
             "rs": np.array([0, 2, 4], dtype=np.int32)}
